@@ -13,6 +13,7 @@ import (
 	"pgregory.net/rapid"
 
 	"verif/harness/ev"
+	"verif/harness/world"
 )
 
 // ---------------------------------------------------------------------------------------------
@@ -27,13 +28,15 @@ import (
 
 type c32Case struct {
 	N   int   `json:"n"`
+	Own int   `json:"own,omitempty"` // ownership layout of the genesis validators, see ownerOf
 	Ops []gop `json:"ops"`
 }
 
 func genC32(t *rapid.T) c32Case {
 	maxN := ev.Scale(12, 40)
 	n := rapid.OneOf(rapid.IntRange(4, 7), rapid.IntRange(5, 7), rapid.IntRange(4, maxN)).Draw(t, "n")
-	c := c32Case{N: n}
+	c := c32Case{N: n, Own: rapid.SampledFrom([]int{0, 0, 1, 1, 2, 3, 4}).Draw(t, "own")}
+	ownerWallet := rapid.IntRange(n+spareNodes+outsiders, n+spareNodes+outsiders+n-1)
 	// 2..4 focus (method, request) pairs per case, with the requests that make them pending
 	kinds := rapid.SliceOfNDistinct(rapid.SampledFrom(approveKinds), 2, 4, rapid.ID[string]).Draw(t, "kinds")
 	owner := n + spareNodes + rapid.IntRange(0, 1).Draw(t, "owner")
@@ -73,7 +76,7 @@ func genC32(t *rapid.T) c32Case {
 		switch x := rapid.IntRange(0, 99).Draw(t, "class"); {
 		case x < 50: // single approval of a focus pair
 			f := focus[rapid.IntRange(0, len(focus)-1).Draw(t, "focus")]
-			f.A = rapid.OneOf(rapid.IntRange(0, n-1), rapid.IntRange(0, n-1), genActor(n)).Draw(t, "approver")
+			f.A = rapid.OneOf(rapid.IntRange(0, n-1), rapid.IntRange(0, n-1), genActor(n), ownerWallet).Draw(t, "approver")
 			if rapid.IntRange(0, 19).Draw(t, "badWitness") == 0 {
 				f.W = 1
 			}
@@ -83,7 +86,7 @@ func genC32(t *rapid.T) c32Case {
 		case x < 72: // round on a focus pair
 			f := focus[rapid.IntRange(0, len(focus)-1).Draw(t, "focus")]
 			return gop{K: kRound, M: f.K, B: f.B, L: f.L, A: rapid.IntRange(0, n-1).Draw(t, "start"),
-				C: rapid.SampledFrom([]int{0, -1, -1, -1, -2, 1, 2}).Draw(t, "count")}
+				C: rapid.SampledFrom([]int{0, -1, -1, -1, -2, 1, 2}).Draw(t, "count"), W: rapid.SampledFrom([]int{0, 0, 0, 2, 3}).Draw(t, "who")}
 		case x < 76:
 			return genRound(t, n, approveKinds)
 		case x < 88:
@@ -93,6 +96,13 @@ func genC32(t *rapid.T) c32Case {
 		}
 	}), 4, ev.Scale(40, 90)).Draw(t, "ops")
 	c.Ops = append(setup, body...)
+	if c.Own != 0 { // candidates are registered by separate owner wallets too (one wallet may own several)
+		for i := range c.Ops {
+			if o := &c.Ops[i]; o.K == kRegCand && o.A == o.B {
+				o.A = n + spareNodes + outsiders + o.B%2
+			}
+		}
+	}
 	return c
 }
 
@@ -110,7 +120,8 @@ func runC32(ctx *ev.Ctx, c c32Case) {
 	if c.N < 4 {
 		c.N = 4
 	}
-	e := newEng(ctx, c.N, 0)
+	e := newEng(ctx, c.N, 0, c.Own)
+	e.label(fmt.Sprintf("ownership-layout:%d", mod(c.Own, 5)))
 	m := &c32Model{appr: map[string]map[common.Address]bool{}}
 	for _, top := range c.Ops {
 		for _, op := range e.expand(top) {
@@ -206,6 +217,13 @@ func c32Approve(e *eng, m *c32Model, op gop) {
 	if cons[sr.acting] == 0 {
 		m.outsider = true
 		e.label("accepted-approval-by-non-validator")
+		for _, it := range pre.Items {
+			if it.Address == sr.acting && it.Status == node_manager.ConsensusStatus {
+				e.label("accepted-approval-by-owner-wallet-of-a-validator")
+			}
+		}
+	} else if it, ok := pre.Items[world.PubHex(e.actors[e.byAddr[sr.acting]])]; ok && it.Address != sr.acting {
+		e.label("accepted-approval-by-validator-with-separate-owner")
 	}
 	want := count >= thr
 	if sr.fired != want {
@@ -293,9 +311,9 @@ func c32Approve(e *eng, m *c32Model, op gop) {
 
 func TestC32(t *testing.T) {
 	ev.Drive(t, "C32",
-		"cases: N=4..12 (thorough 40) genesis validators; 2..8 request transactions, then 4..40 (thorough 90) ops: single approvals of the ten consensus-approved methods "+
+		"cases: N=4..12 (thorough 40) genesis validators whose owner wallets (pool item Address) are the node addresses, separate wallets, or wallets owning 2-3 nodes; candidates registered by separate wallets; 2..8 request transactions, then 4..40 (thorough 90) ops: single approvals of the ten consensus-approved methods "+
 			"(approve candidate, black/white node, approve register/update/quit side chain, approve register/remove relayer, approve register/remove state validator) by validators, "+
-			"repeat approvers, spare nodes and outsiders (5% with a foreign witness), approval rounds, further requests, quit/commitDpos/next-block. "+
+			"repeat approvers, owner wallets, spare nodes and outsiders (5% with a foreign witness), approval rounds by node addresses / owner wallets / both, further requests, quit/commitDpos/next-block. "+
 			"non-trivial: at least two (method, request) approval records were open at the same time, a non-validator's approval was accepted, and at least one approval took effect; distinct by JSON of the case",
 		genC32, runC32)
 }
